@@ -652,6 +652,157 @@ def r_axis_total(c):
         raise AnalysisError(f"only {n} axis-taking public functions found (floor 12)")
 
 
+# ---------------------------------------------------------------------------
+# broadcasting as a fold: finite abstract evaluation of the decision tree
+
+EQ_FUNCS = ("are_shape_components_equal",)
+
+
+def _eq_atom(n):
+    """frozenset of the two operand texts of an are_shape_components_equal call"""
+    if isinstance(n, ast.Call) and ast.unparse(n.func).split(".")[-1] in EQ_FUNCS \
+            and len(n.args) == 2 and not n.keywords:
+        return frozenset(ast.unparse(a) for a in n.args)
+    return None
+
+
+def _tree_actions(stmts, val, acc_writes, elem):
+    """possible outcomes {'KEEP','TAKE','RAISE','WRONG'} of executing ``stmts`` when
+    the atoms have the truth values ``val`` (atoms not in val are free)"""
+    def test(t):
+        a = _eq_atom(t)
+        if a is not None:
+            return {val[a]} if a in val else {True, False}
+        if isinstance(t, ast.UnaryOp) and isinstance(t.op, ast.Not):
+            return {not x for x in test(t.operand)}
+        if isinstance(t, ast.BoolOp):
+            vals = [test(v) for v in t.values]
+            out = set()
+            import itertools
+            for combo in itertools.product(*vals):
+                out.add(all(combo) if isinstance(t.op, ast.And) else any(combo))
+            return out
+        return {True, False}
+
+    def block(body, state):
+        # state: 'KEEP' or 'TAKE' or 'WRONG' so far; returns set of final outcomes
+        outs = {state}
+        for st in body:
+            nxt = set()
+            for s_ in outs:
+                if s_ == "RAISE":
+                    nxt.add(s_)
+                    continue
+                if isinstance(st, ast.If):
+                    for tv in test(st.test):
+                        nxt |= block(st.body if tv else st.orelse, s_)
+                elif isinstance(st, ast.Raise):
+                    nxt.add("RAISE")
+                elif isinstance(st, (ast.Assign, ast.AnnAssign)) and st.value is not None:
+                    tg = ast.unparse(st.targets[0] if isinstance(st, ast.Assign) else st.target)
+                    if tg in acc_writes:
+                        nxt.add("TAKE" if ast.unparse(st.value) == elem else "WRONG")
+                    else:
+                        nxt.add(s_)
+                else:
+                    nxt.add(s_)
+            outs = nxt
+        return outs
+    return block(stmts, "KEEP")
+
+
+def broadcast_folds(c, rule, modules):
+    """Every decision tree that broadcasts a new axis length E into a remembered
+    length A (tests are are_shape_components_equal(E, A), (E, 1), (A, 1)) is
+    evaluated on the four consistent abstract cases and must do what NumPy
+    broadcasting does: equal -> keep; E is 1 -> keep; A is 1 -> take E;
+    otherwise -> raise."""
+    m = c.model
+    n = 0
+    for mi, fd in m.all_functions(modules=[x for x in modules if x in m.modules]):
+        from pta.order import _own_nodes
+        cands = [i for i in _own_nodes(fd) if isinstance(i, ast.If) and any(
+            _eq_atom(x) is not None for x in ast.walk(i.test))]
+        roots = [i for i in cands if not any(
+            o is not i and any(i is x for x in ast.walk(o)) for o in cands)]
+        for root in roots:
+            atoms = {a for x in ast.walk(root) for a in [_eq_atom(x)] if a is not None}
+            ones = {next(iter(a - {"1"})) for a in atoms if "1" in a and len(a) == 2}
+            pairs = [a for a in atoms if "1" not in a and len(a) == 2]
+            if len(ones) < 1 or not pairs:
+                continue        # not a broadcast decision (a plain equality check)
+            if not any(isinstance(x, ast.Raise) for x in ast.walk(root)):
+                continue
+            n += 1
+            qn = m.qualname(fd).replace("pytato.", "", 1)
+            where = m.loc(mi, root)
+            pair = sorted(pairs[0])
+            # the remembered length: re-assigned in the tree, or read from a
+            # container that the function also writes
+            def is_acc(nm):
+                for x in ast.walk(root):
+                    if isinstance(x, ast.Assign) and ast.unparse(x.targets[0]) == nm:
+                        return {nm}
+                for a in ast.walk(fd):
+                    if isinstance(a, ast.Assign) and ast.unparse(a.targets[0]) == nm \
+                            and isinstance(a.value, ast.Subscript):
+                        src = ast.unparse(a.value)
+                        if any(isinstance(w, ast.Assign) and ast.unparse(w.targets[0]) == src
+                               for w in ast.walk(fd)):
+                            return {nm, src}
+                return None
+            accs = [(nm, is_acc(nm)) for nm in pair]
+            accs = [(nm, w) for nm, w in accs if w]
+            if not accs and len(ones & set(pair)) == 1:
+                # one-way broadcast of E into a GIVEN target length T (broadcast_to):
+                # equal -> accept; E is 1 -> accept; otherwise -> raise
+                E = next(iter(ones & set(pair)))
+                T = [x for x in pair if x != E][0]
+                eqET, E1 = frozenset({E, T}), frozenset({E, "1"})
+                for cname, val, want in (
+                        ("equal", {eqET: True}, {"KEEP"}),
+                        ("operand length is 1", {eqET: False, E1: True}, {"KEEP"}),
+                        ("different and not 1", {eqET: False, E1: False}, {"RAISE"})):
+                    got = _tree_actions([root], val, set(), E)
+                    c.check(got <= want and bool(got), rule, qn,
+                            f"one-way-broadcast:{cname}", where,
+                            f"case `{cname}` (operand length `{E}`, target length `{T}`): "
+                            f"the code can {sorted(got)} but broadcasting into "
+                            f"a given shape requires {sorted(want)} (KEEP = accept)")
+                continue
+            if len(accs) != 1:
+                c.violation(rule, qn, f"broadcast-fold:{'/'.join(pair)}", where,
+                            f"the lengths compared ({pair[0]}, {pair[1]}) do not consist of "
+                            "one new length and one remembered (accumulated) length: the "
+                            "decision is not taken against what was broadcast so far "
+                            "(three operands of lengths 3, 1, 4 are accepted)")
+                continue
+            A, writes = accs[0]
+            E = [x for x in pair if x != A][0]
+            eqEA, E1, A1 = frozenset({E, A}), frozenset({E, "1"}), frozenset({A, "1"})
+            cases = [
+                ("equal", {eqEA: True}, {"KEEP", "TAKE"}),
+                ("new length is 1", {eqEA: False, E1: True, A1: False}, {"KEEP"}),
+                ("remembered length is 1", {eqEA: False, E1: False, A1: True}, {"TAKE"}),
+                ("different, neither is 1", {eqEA: False, E1: False, A1: False}, {"RAISE"}),
+            ]
+            for cname, val, want in cases:
+                # for `equal` leave the two comparisons with 1 free
+                got = _tree_actions([root], val, writes, E)
+                c.check(got <= want and bool(got), rule, qn,
+                        f"broadcast-fold:{cname}", where,
+                        f"case `{cname}` (new length `{E}`, remembered length `{A}`): "
+                        f"the code can {sorted(got)} but broadcasting requires "
+                        f"{sorted(want)} (KEEP = leave `{A}`, TAKE = `{A}` becomes `{E}`)")
+    return n
+
+
+def r_broadcast(c):
+    n = broadcast_folds(c, "R03-FOLD", SHAPE_MODULES)
+    if n < 2:
+        raise AnalysisError(f"only {n} broadcast decision trees found (floor 2)")
+
+
 MEMO_DECOS = ("lru_cache", "cache", "memoize", "memoize_method", "memoize_on_first_arg",
               "memoize_in")
 NUMERIC_ANN = ("int", "float", "complex", "bool", "Scalar", "Any", "DTypeLike", "Number",
@@ -706,9 +857,9 @@ def r_memo(c):
 
 SPEC = Spec(
     prop="C03",
-    rules=[r_eager, r_axis, r_axis_total, r_splice, r_operators, r_slice, r_fold, r_memo],
+    rules=[r_eager, r_axis, r_axis_total, r_splice, r_operators, r_slice, r_fold, r_broadcast, r_memo],
     floors={"R03-EAGER": 70, "R03-AXIS": 15, "R03-SPLICE": 3, "R03-OPERATORS": 40,
-            "R03-SLICE": 5, "R03-FOLD": 2, "R03-MEMO": 8},
+            "R03-SLICE": 5, "R03-FOLD": 10, "R03-MEMO": 8},
     explanation=(
         "Decides structural clauses; the agreement of inferred shapes/dtypes with NumPy's "
         "value-level behaviour is NOT decided. R03-EAGER: for every concrete array "
@@ -741,7 +892,11 @@ SPEC = Spec(
         "depends on it there or in a repository function the value is handed to. "
         "R03-MEMO: no function of the package is memoised (lru_cache, "
         "memoize_method, ...) on an argument that may be a Python/NumPy scalar "
-        "without typed=True (1 == 1.0 == True are one cache key)."),
+        "without typed=True (1 == 1.0 == True are one cache key). R03-FOLD also "
+        "evaluates every broadcasting decision tree (tests are_shape_components_equal "
+        "(E, A), (E, 1), (A, 1)) on its four consistent abstract cases: equal -> keep, "
+        "new length 1 -> keep, remembered length 1 -> take the new one, otherwise "
+        "raise; one-way broadcasts into a given shape likewise."),
     not_decided=(
         "dtype promotion, broadcast shapes, slice lengths and which exception type "
         "NumPy would raise: a differential statement against an external library's "
